@@ -153,7 +153,13 @@ def check(s):
          necessary_for="every environment function gives the same result eagerly and under jit")
     from .C13 import check_adapters
     check_adapters(s, rule="C12.7")
-    for r_, n_ in (("C12.1", 300), ("C12.2", 41), ("C12.3", 16), ("C12.4", 2), ("C12.5", 50), ("C12.6", 10), ("C12.7", 10)):
+    # ---------------------------------------------------------------- C12.8 "depends only on its explicit arguments" for the generic step / reset:
+    # the composition rules of C01 (one transition from the given state, the reset branch selected lazily) - a step that runs
+    # initial() on every call resets a host-side (Gymnasium-backed) environment under the caller, so the next step(state, a, key)
+    # depends on hidden simulator state and not on its arguments
+    from .C01 import check_step
+    check_step(s, lambda i: "C12.8")
+    for r_, n_ in (("C12.8", 8), ("C12.1", 300), ("C12.2", 41), ("C12.3", 16), ("C12.4", 2), ("C12.5", 50), ("C12.6", 10), ("C12.7", 10)):
         s.floor(r_, n_)
 
 
